@@ -928,8 +928,14 @@ def gen_payload(rng, tier):
         r = rng.random()
         if r < 0.45:
             items.append({'k': 'zval', 'v': _jcontainer(rng), 'wf': True})
-        elif r < 0.65:
+        elif r < 0.60:
             items.append({'k': 'zval', 'v': _near_variants(rng, base), 'wf': True, 'near': True})
+        elif r < 0.65:
+            # a node is written, then written again (put / update with check_content) with a value that differs
+            # only in a type / shape detail: what is stored afterwards is the payload of the SECOND value
+            v1 = _jcontainer(rng)
+            items.append({'k': 'zrewrite', 'v1': v1, 'v2': _near_variants(rng, v1), 'how': rng.choice(['put', 'update']),
+                          'wf': True})
         elif r < 0.72:
             items.append({'k': 'zval', 'v': _jscalar(rng), 'wf': False})
         elif r < 0.9:
@@ -1052,6 +1058,36 @@ def run_payload(items, run, mon):
                     mon.nt += 1
                 if it.get('near'):
                     mon.near += 1
+        elif it['k'] == 'zrewrite':
+            import kazoo.client
+            from treadmill import zkutils
+            node = {}
+
+            def _create(path, value, **_kw):
+                if path in node:
+                    raise kazoo.client.NodeExistsError()
+                node[path] = value
+                return path
+            zk = mock.Mock()
+            zk.create.side_effect = _create
+            zk.get.side_effect = lambda path, *a, **kw: (node[path], mock.Mock())
+            zk.set.side_effect = lambda path, value, *a, **kw: node.__setitem__(path, value)
+            v1, v2 = it['v1'], it['v2']
+            zkutils.put(zk, '/x', v1)
+            run.op('zput ' + ' '.join(_jtoks(v1)), _bhex(node['/x']))
+            if it['how'] == 'put':
+                zkutils.put(zk, '/x', v2, check_content=True)
+            else:
+                zkutils.update(zk, '/x', v2, check_content=True)
+            data = node['/x']
+            run.op('zput ' + ' '.join(_jtoks(v2)), _bhex(data))
+            res, err = _zget(run, data, True)
+            run.tags.add('payload-rewrite')
+            if isinstance(v2, (dict, list)) and _json_domain(v2) and _json_domain(v1):
+                if err or canon(res) != canon(v2) or type(res) is not type(v2):
+                    mon.hit('payload-roundtrip', 'zkutils.%s(check_content)' % it['how'],
+                            'stored %r, then wrote %r: reads back %r' % (v1, v2, res))
+                mon.nt += 1
         elif it['k'] == 'zraw':
             raw = bytes.fromhex(it['hex']) if 'hex' in it else it['text'].encode()
             arg = raw if it['as'] == 'bytes' or 'hex' in it else it['text']
@@ -1195,8 +1231,20 @@ def _lbreak(rng, cls, o):
     return o
 
 
+DN_WORDS = ['foo', 'bar', 'a', 'b', 'x.y', 'prod', 'prod1', 'c1', 'somecell', 'A', '10', 'foo-bar_1', 'p']
+DN_ROOT = ['ou=treadmill', 'dc=example', 'dc=com']
+
+
 def gen_ldap(rng, tier):
     items = []
+    # object ids as distinguished names: tenant paths of any depth
+    for _ in range(rng.randint(1, 4)):
+        if rng.random() < 0.7:
+            items.append({'k': 'dn', 'cls': 'ca', 'cell': rng.choice(DN_WORDS), 'alloc': rng.choice(DN_WORDS),
+                          'tenants': [rng.choice(DN_WORDS) for _ in range(rng.choice([1, 1, 2, 2, 3, 4]))], 'wf': True})
+        else:
+            items.append({'k': 'dn', 'cls': 'part', 'cell': rng.choice(DN_WORDS), 'partition': rng.choice(DN_WORDS),
+                          'wf': True})
     n = rng.randint(8, 16)
     while len(items) < n:
         cls = rng.choice(['app', 'app', 'calloc', 'part'])
@@ -1346,8 +1394,43 @@ def _mut_entry(rng, cls, e):
 def run_ldap(items, run, mon):
     import random as _random
     from treadmill.admin import _ldap
+    class _Adm(object):
+        """What `LdapObject.dn` needs of the admin connection: the real `Admin.dn`."""
+        root_ou = ','.join(DN_ROOT)
+        dn = _ldap.Admin.dn
     for it in items:
         cls = it['cls']
+        if it['k'] == 'dn':
+            run.tags.add('ldap-dn:' + cls)
+            if cls == 'ca':
+                ident = [it['cell'], ':'.join(it['tenants']) + '/' + it['alloc']]
+                want = '%s/%s/%s' % (':'.join(it['tenants']), it['alloc'], it['cell'])
+                try:
+                    dn = _ldap.CellAllocation(_Adm()).dn(ident)
+                    back = _ldap._dn2cellalloc_id(dn)             # pylint: disable=protected-access
+                    obs = 'dn %s dec %s' % (H(dn), 'none' if back is None else 'some ' + H(back))
+                except Exception:  # pylint: disable=broad-except
+                    dn, back, obs = None, None, 'err'
+                run.op('dnca %d %s' % (len(DN_ROOT), ' '.join(H(x) for x in DN_ROOT + [it['cell'], it['alloc']] + it['tenants'])), obs)
+                site = 'CellAllocation.dn/_dn2cellalloc_id'
+            else:
+                ident = [it['partition'], it['cell']]
+                want = (it['cell'], it['partition'])
+                try:
+                    dn = _ldap.Partition(_Adm()).dn(ident)
+                    back = _ldap._dn2partition_id(dn)             # pylint: disable=protected-access
+                    obs = 'dn %s dec %s' % (H(dn), 'none' if back is None else 'some %s %s' % (H(back[0]), H(back[1])))
+                except Exception:  # pylint: disable=broad-except
+                    dn, back, obs = None, None, 'err'
+                run.op('dnpart %d %s' % (len(DN_ROOT), ' '.join(H(x) for x in DN_ROOT + [it['partition'], it['cell']])), obs)
+                site = 'Partition.dn/_dn2partition_id'
+            # ---- monitor: the id read back from the dn is the id written; distinct ids, distinct dns
+            if dn is None or back != want:
+                mon.hit('ldap-dn-roundtrip', site, 'id %r -> dn %r -> id %r' % (want, dn, back))
+            else:
+                mon.inj('ldap-dn:' + cls, site, dn, want)
+                mon.nt += 1
+            continue
         if it['k'] == 'ldap':
             o = it['o']
             e = _lenc(run, cls, o)
